@@ -47,7 +47,9 @@ type ACS struct {
 	Binding, Location, Index, IsDefault string
 	NoIndex                             bool // leave the index attribute out altogether (not schema-valid, but met in the wild)
 }
-type SLO struct{ Binding, Location string }
+
+// SLO is one SingleLogoutService entry; ResponseLocation is the optional attribute of that name.
+type SLO struct{ Binding, Location, ResponseLocation string }
 
 // SPDesc describes the metadata document of a simulated service provider.
 type SPDesc struct {
@@ -120,7 +122,11 @@ func (d *SPDesc) Node() *Node {
 		sp.Add(kd)
 	}
 	for _, s := range d.SLO {
-		sp.Add(El(q(p, "SingleLogoutService"), Attr{"Binding", s.Binding}, Attr{"Location", s.Location}))
+		slo := El(q(p, "SingleLogoutService"), Attr{"Binding", s.Binding}, Attr{"Location", s.Location})
+		if s.ResponseLocation != "" {
+			slo.Set("ResponseLocation", s.ResponseLocation)
+		}
+		sp.Add(slo)
 	}
 	sp.Add(El(q(p, "NameIDFormat")).SetText("urn:oasis:names:tc:SAML:1.1:nameid-format:emailAddress"))
 	for _, a := range d.ACS {
